@@ -92,9 +92,9 @@ Section ModuleInv.
     eapply delete_colvars_jinv; [eapply delete_biases_jinv; eassumption | exact E].
   Qed.
 
-  Lemma m_disable_jinv n o f m m' : jinv m -> m_prim T n (OpDisable o f) m = Some m' -> jinv m'.
+  Lemma m_disable_jinv n o f m m' : jinv m -> rc (m_objs m) o f <> 1%Z -> m_prim T n (OpDisable o f) m = Some m' -> jinv m'.
   Proof.
-    intros (W & C & H) E. destruct (m_prim_wf T n _ m m' W E) as (W' & _). split; [exact W'|].
+    intros (W & C & H) Hne E. destruct (m_prim_wf T n _ m m' W E) as (W' & _). split; [exact W'|].
     unfold m_prim in E. destruct (alive m (op_target (OpDisable o f))); [|inversion E; subst; auto].
     cbn [run_op] in E. destruct (disable T n o f (m_objs m)) as [[r s]|] eqn:E1; [|discriminate]. inversion E; subst. cbn [m_objs].
     split; [eapply disable_consistent; eassumption|].
@@ -102,10 +102,11 @@ Section ModuleInv.
   Qed.
 End ModuleInv.
 
-(* the public deletion operations: delete a bias, delete a variable (with its biases), reset, switch a feature off *)
+(* the deletion operations: delete a bias, delete a variable (with its biases), reset.
+   (Switching a feature off by script is covered by m_disable_jinv under its side condition only.) *)
 Definition deletion_op (p : mop) : bool :=
   match p with
-  | MDeleteBias _ | MDeleteColvar _ | MReset | MPrim (OpDisable _ _) => true
+  | MDeleteBias _ | MDeleteColvar _ | MReset => true
   | _ => false
   end.
 
@@ -122,8 +123,18 @@ Proof.
   destruct (m_step T n p m) as [m1|] eqn:E1; [|discriminate].
   apply (IH Hp2 m1); [|exact E].
   destruct p as [av cs|av vs|q|b|v|]; cbn [deletion_op] in Hp1; try discriminate; cbn [m_step] in E1.
-  - destruct q as [o f dry top err|o f|o f|o|o]; try discriminate. eapply m_disable_jinv; eassumption.
   - eapply m_delete_bias_jinv; eassumption.
   - eapply m_delete_colvar_jinv; eassumption.
   - eapply m_reset_jinv; eassumption.
+Qed.
+
+(* switching a feature off (script `set <feature> off`, OpDisable) keeps consistency when the feature does not hold
+   exactly one reference *)
+Theorem disable_step_keeps_consistency (T : tables) n o f m m' :
+  wf m -> consistent T (m_objs m) -> rc (m_objs m) o f <> 1%Z -> m_prim T n (OpDisable o f) m = Some m' ->
+  wf m' /\ consistent T (m_objs m').
+Proof.
+  intros W C Hne E.
+  destruct (m_disable_jinv T (fun x => 4 - class (m_objs m) x) n o f m m') as (A & B & _); auto.
+  split; [exact W|]. split; [exact C | apply wf_heights; exact W].
 Qed.
